@@ -107,7 +107,7 @@ def rich_table(zombie=False, btime=1_700_000_000, kthread=False):
     t = ProcTable(btime=btime, ncpu=4, self_pid=2)
     t.spawn(1, 5, ppid=0, comm=b"init")
     t.spawn(2, 100, ppid=1, comm=b"harness")
-    t.spawn(40, 300, ppid=1, comm=b"parent")
+    t.spawn(40, 300, ppid=1, comm=b"par ent")
     p = t.spawn(50, 500, ppid=40, comm=b"wk (a) b")      # spaces and parentheses, as "tmux: server" / "(sd-pam)" have
     p.threads = [Thread(50, b"wk (a) b", 30, 40), Thread(51, b"wk-io", 1, 2), Thread(52, b"wk) r", 3, 4)]
     p.utime, p.stime, p.cutime, p.cstime, p.blkio = 34, 46, 7, 8, 9
@@ -132,7 +132,7 @@ def rich_table(zombie=False, btime=1_700_000_000, kthread=False):
         6: dict(target=files["reg_b.log"], pos=10, flags=0o102001),
     }
     t.spawn(55, 520, ppid=40, comm=b"sibling")
-    t.spawn(60, 700, ppid=50, comm=b"child-a")
+    t.spawn(60, 700, ppid=50, comm=b"ch) R 1 (a")
     t.spawn(61, 710, ppid=50, comm=b"child-b")
     t.spawn(70, 800, ppid=60, comm=b"grandchild")
     t.rootfiles.update({
